@@ -374,6 +374,53 @@ func runAliasMode(seed int64, n int, tr *transcript) {
 						violated("Prefix", pb)
 					}
 				case 5:
+					if !isAlpha && len(key) != 0 {
+						// Range on a collation tree is outside C03 (no specification of what it returns), but C13 still
+						// applies: what the sequence yields must not depend on what the caller does with the bound
+						// buffers after Range has returned.  The same bounds, once consumed at once from private copies
+						// and once consumed after the caller refilled its buffers.
+						key2 := unhex(u.next(r))
+						if len(key2) == 0 {
+							continue
+						}
+						collect := func(seq func(func([]byte, int) bool)) string {
+							var got []kv
+							for k, v := range seq {
+								got = append(got, kv{hexLit(k), v})
+							}
+							return renderKVs(got)
+						}
+						ref := safely(func() string {
+							return collect(raw.Range(append([]byte{}, key...), append([]byte{}, key2...)))
+						})
+						b2 := newCallerBuf(r, key2, r.Intn(3))
+						out := safely(func() string {
+							seq := raw.Range(b.key(), b2.key())
+							if !b.intact() {
+								violated("Range", b)
+							}
+							if !b2.intact() {
+								violated("Range", b2)
+							}
+							b.scribble()
+							b2.scribble()
+							b.snapshot, b2.snapshot = append([]byte{}, b.arr...), append([]byte{}, b2.arr...)
+							return collect(seq)
+						})
+						tr.stats["alias-collation-range-after-buffer-reuse"]++
+						res := "ok"
+						if out != ref {
+							res = fmt.Sprintf("differs:bounds=%x..%x:consumed-at-once=%s:consumed-after-the-bound-buffers-were-refilled=%s", key, key2, ref, out)
+						}
+						tr.emit(fmt.Sprintf("assert %d range-sequence-independent-of-later-writes-to-the-bound-buffers", id), res)
+						if !b.intact() {
+							violated("Range", b)
+						}
+						if !b2.intact() {
+							violated("Range", b2)
+						}
+						continue
+					}
 					if !isAlpha || len(key) == 0 {
 						continue
 					}
@@ -1458,6 +1505,78 @@ func gcAddressKeys(tr *transcript, r *rand.Rand) {
 	tr.stats["gc-address-keys"]++
 }
 
+// gcEmptyKeys: many one-key trees holding the EMPTY key (its storage is a zero-length object: any pointer "to its
+// bytes" is a pointer one past something), garbage between the inserts, collections, the freed small slots refilled,
+// then one more insert that splits the leaf.  Whatever a leaf keeps of an empty key must keep its block alive.
+func gcEmptyKeys(tr *transcript, n int) {
+	rounds := 1 + n/60
+	if rounds > 8 {
+		rounds = 8
+	}
+	fail := ""
+	note := func(what string) {
+		if fail == "" {
+			fail = what
+		}
+	}
+	var sink [][]byte
+	for round := 0; round < rounds && fail == ""; round++ {
+		const trees = 1500
+		cs := make([]art.Tree[string, int], trees)
+		cb := make([]art.Tree[[]byte, int], trees)
+		as := make([]art.Tree[string, int], trees)
+		for i := 0; i < trees; i++ {
+			cs[i] = art.NewCollationSortedTree[string, int]()
+			cb[i] = art.NewCollationSortedTree[[]byte, int]()
+			as[i] = art.NewAlphaSortedTree[string, int]()
+			cs[i].Insert("", i)
+			sink = append(sink, make([]byte, 1+i%15))
+			cb[i].Insert([]byte{}, i)
+			sink = append(sink, make([]byte, 1+i%7))
+			as[i].Insert("", i)
+		}
+		sink = nil
+		runtime.GC()
+		runtime.GC()
+		// refill freed tiny/small slots
+		var fill [][]byte
+		for i := 0; i < 40000; i++ {
+			b := make([]byte, 1+i%16)
+			for j := range b {
+				b[j] = 0xFF
+			}
+			fill = append(fill, b)
+		}
+		for i := 0; i < trees && fail == ""; i++ {
+			cs[i].Insert("a", -1)
+			cb[i].Insert([]byte("a"), -1)
+			as[i].Insert("a", -1)
+			if v, ok := cs[i].Search(""); !ok || v != i {
+				note(fmt.Sprintf("collation[string] tree %d: Search(\"\") = %v,%v after collections, want %d", i, v, ok, i))
+			}
+			if v, ok := cb[i].Search([]byte{}); !ok || v != i {
+				note(fmt.Sprintf("collation[[]byte] tree %d: Search(\"\") = %v,%v after collections, want %d", i, v, ok, i))
+			}
+			if v, ok := as[i].Search(""); !ok || v != i {
+				note(fmt.Sprintf("byte-string tree %d: Search(\"\") = %v,%v after collections, want %d", i, v, ok, i))
+			}
+			var ks []string
+			for k := range cs[i].All() {
+				ks = append(ks, k)
+			}
+			if len(ks) != 2 || ks[0] != "" || ks[1] != "a" {
+				note(fmt.Sprintf("collation[string] tree %d: All() = %q after collections, want [\"\" \"a\"]", i, ks))
+			}
+		}
+		runtime.KeepAlive(fill)
+		tr.stats["gc-empty-key-trees"] += 3 * trees
+	}
+	if fail == "" {
+		fail = "ok"
+	}
+	tr.emit("assert 0 empty-keys-survive-gc", fail)
+}
+
 func runGCMode(seed int64, n int, tr *transcript) {
 	r := rand.New(rand.NewSource(seed))
 	gcForValue(tr, "int", func(i int) int { return i * 3 }, r, n)
@@ -1473,6 +1592,7 @@ func runGCMode(seed int64, n int, tr *transcript) {
 	gcForValue(tr, "3bytes", func(i int) [3]byte { return [3]byte{byte(i), byte(i >> 8), 0xEE} }, r, n/2)
 	gcCrossType(tr, r)
 	gcAddressKeys(tr, r)
+	gcEmptyKeys(tr, n)
 	keys := make([]string, 0, len(tr.stats))
 	for k := range tr.stats {
 		keys = append(keys, k)
